@@ -96,7 +96,15 @@ def run(ctx):
     #      (no absolute tolerance: a p-value of 1e-12 reported as 1.3e-12 rejects too often)
     for _ in range(ctx.n(250, 2500)):
         alt = ctx.rng.choice(ALTS)
-        if ctx.rng.random() < 0.6:
+        u_ = ctx.rng.random()
+        if u_ < 0.25:
+            # a negligible sampling fraction (N >= 1000 n): still the hypergeometric, not its binomial limit
+            N = ctx.rng.choice([2000, 5000, 10**4, 10**6, 10**7 + 3]); n = ctx.rng.randint(2, 6); G = ctx.rng.choice([1, 2, 10, N // 200, N // 7, N // 2, N - 3])
+            lo_x, hi_x = max(0, n - (N - G)), min(n, G)
+            x = ctx.rng.randint(lo_x, hi_x)
+            want = hyper_exact(x, N, n, G)[alt]; r = guarded(utils.hypergeometric, x, N, n, G, alt)
+            det = {"call": "hypergeometric", "x": x, "N": N, "n": n, "G": G, "alternative": alt}; site = "hypergeometric"; ctx.count("negligible-sampling-fraction")
+        elif u_ < 0.7:
             N = ctx.rng.choice([40, 60, 100, 150, 200]); n = ctx.rng.randint(N // 5, N // 2); G = ctx.rng.randint(N // 5, N // 2)
             lo_x, hi_x = max(0, n - (N - G)), min(n, G)
             x = ctx.rng.choice([hi_x, hi_x - 1, hi_x - 2, hi_x - 4, lo_x, lo_x + 1, lo_x + 3, ctx.rng.randint(lo_x, hi_x)])
